@@ -113,7 +113,7 @@ func (e *Engine) verifyFunction(fn *ssa.Function, impl *Contract) (un *Unit, err
 	if ct != nil {
 		fullEnv := f.postEnv(&st)
 		for _, rq := range ct.Requires {
-			un.assume(&st, f.evalClause(rq, fullEnv, &st, &st))
+			un.assume(&st, f.evalAssume(rq, fullEnv, &st, &st))
 		}
 		un.smoke(&st, "requires")
 	}
@@ -142,7 +142,7 @@ func (e *Engine) verifyFunction(fn *ssa.Function, impl *Contract) (un *Unit, err
 				}
 			}
 			if ct.HasMod {
-				f.frameObligations(ct, penv, r, i+1)
+				f.frameObligations(ct, f.postEnv(&f.entry), r, i+1) // the frame is named in terms of the entry state
 			}
 		}
 		// every lock taken by this call is released again
@@ -186,14 +186,24 @@ func (f *Frame) frameObligations(ct *Contract, env map[string]Val, r *retInfo, r
 	allowed := map[string][]Term{}
 	whole := map[string]bool{}
 	excepted := map[string]bool{}
+	var fmods []string
 	for _, m := range ct.Modifies {
+		if _, rest, ok := modGuard(m); ok {
+			m = rest
+		}
+		if mm := strings.TrimSpace(m); strings.HasPrefix(mm, "effects(") {
+			m = "*" // (own frame check: not bounded)
+		}
+		fmods = append(fmods, m)
+	}
+	for _, m := range fmods {
 		if x, ok := exceptItem(m); ok {
 			for _, me := range f.resolveMod(x, env, &f.entry) {
 				excepted[me.heap] = true
 			}
 		}
 	}
-	for _, m := range ct.Modifies {
+	for _, m := range fmods {
 		if _, ok := exceptItem(m); ok {
 			continue
 		}
@@ -242,7 +252,8 @@ func (f *Frame) frameObligations(ct *Contract, env map[string]Val, r *retInfo, r
 		for _, a := range allowed[k] {
 			excl = append(excl, Neq(q, a))
 		}
-		g := Forall([]Term{q}, Implies(And(append(excl, Le(q, next0))...), Eq(Select(end, q), Select(start, q))), Select(end, q))
+		// (reference 0 is nil: no object or row lives there)
+		g := Forall([]Term{q}, Implies(And(append(excl, Le(q, next0), Gt(q, IntLit(0)))...), Eq(Select(end, q), Select(start, q))), Select(end, q))
 		un.obligeNamed(&r.st, fmt.Sprintf("frame:%s@ret%d", k, ri), "frame", "only the declared locations of "+k+" change", ct.File, g)
 	}
 }
@@ -365,7 +376,7 @@ func (e *Engine) verifyLemma(name string) (un *Unit, err error) {
 	f.emitAxioms()
 	f.entry = st
 	for _, rq := range lm.Requires {
-		un.assume(&st, f.evalClause(rq, env, &st, &st))
+		un.assume(&st, f.evalAssume(rq, env, &st, &st))
 	}
 	un.smoke(&st, "requires")
 	for _, en := range lm.Ensures {
@@ -386,6 +397,12 @@ func (f *Frame) emitAxioms() {
 			defer func() {
 				if r := recover(); r != nil {
 					if u, ok := r.(unsupported); ok {
+						if f.fn == nil {
+							// a lemma: axioms about Go types it cannot name are simply not available to it
+							un.inQuant = 0
+							un.axHeaps = nil
+							return
+						}
 						panic(unsupported{"axiom " + ax.Name + ": " + u.msg})
 					}
 					panic(r)
